@@ -25,7 +25,10 @@ def _replay27(ctx, r):
 
 def _replay28(ctx, r):
     with i4_text._Tmp() as tmp:
-        x = i4_text.c28_case(r["vals"], r["reqs"], r["nv"], tmp, r.get("sol"))
+        if r.get("iterate"):
+            x = i4_text.c28_iterate(r["vals"], r["reqs"], r["nv"], r["support"], tmp)
+        else:
+            x = i4_text.c28_case(r["vals"], r["reqs"], r["nv"], tmp, r.get("sol"))
         if x:
             ctx.fail("C28: " + x, r)
 
@@ -127,7 +130,7 @@ REGISTRY = {
         "oracle": [i3_card.oracle_c10],
         "oracle_budget": {"quick": 25, "thorough": 300},
         "replay": lambda ctx, r: (lambda x: ctx.fail(x["what"], x) if x else None)(
-            i3_card.c10_case(r["n"], r["k"], r["rel"])),
+            i3_card.c10_case(r["n"], r["k"], r["rel"], again=r.get("again", False))),
         "trusted_base": TB_COMMON + ["math.ceil(math.log(n, 2)) is modelled by the exact ceil-log2 (clog2)"],
         "assumptions": ["the n variables are distinct"],
     },
